@@ -193,7 +193,7 @@ def run(tier, seed):
                        "C09_generated_*: about Gen/ExtInvGen.lean (inv, div, batchInverse translated from the C++ on every run, "
                        "fuel-bounded); the generated functions are executed against the code as well"]
     st = run_gen()
-    standard_proof_phase(res, MODULE, "C09_", st, ["Scalar", "Ext", "InvGen", "ExtInvGen"], thorough=(tier == "thorough"))
+    standard_proof_phase(res, MODULE, "C09_", st, ["Scalar", "Ext", "InvGen", "ExtInvGen", "ConvGen", "ExtScalarGen"], thorough=(tier == "thorough"))
     drv, err = build_driver()
     if err:
         res.broken.append(("model driver build", err))
